@@ -51,7 +51,7 @@ func invalidates(c *Ctx) func(ssa.Instruction) bool {
 			}
 		}
 		lc, ok := stripConv(slot).(*ssa.Call)
-		if !ok || look == nil || lc.Call.StaticCallee() != look {
+		if !ok || look == nil || staticCallee(lc) != look {
 			return nil, false
 		}
 		nm, f2, base, _ := loadedFieldS(argN(lc, 0), sub)
@@ -185,7 +185,7 @@ func ruleA2(c *Ctx, id string) {
 					return false, false
 				}
 				cl, ok := stripConv(cd.X).(*ssa.Call)
-				if !ok || cl.Call.StaticCallee() == nil || cl.Call.StaticCallee().Name() != method {
+				if !ok || staticCallee(cl) == nil || staticCallee(cl).Name() != method {
 					return false, false
 				}
 				k, isk := constInt(cd.Y)
@@ -212,7 +212,7 @@ func ruleA2(c *Ctx, id string) {
 				if !ok {
 					return false, false
 				}
-				h := pc.Call.StaticCallee()
+				h := staticCallee(pc)
 				if h == nil || !isPrivateHelper(h) || h.Blocks == nil {
 					return false, false
 				}
